@@ -20,8 +20,8 @@ def prefix(t):
         return "let_value %s %s" % (t["g"], prefix(t["s"]))
     if op == "let_error":
         return "let_error %s %s" % (t["h"], prefix(t["s"]))
-    if op == "when_all":
-        return "when_all %s %s" % (prefix(t["a"]), prefix(t["b"]))
+    if op in ("when_all", "when_all_vector"):
+        return "%s %s %s" % (op, prefix(t["a"]), prefix(t["b"]))
     return "%s %s" % (op, prefix(t["s"]))
 
 
@@ -38,7 +38,7 @@ def classify(term):
     return "SplitStoppedNotStored" if walk(term) else None
 
 
-def run_terms(binary, terms, seed, tag, threads, perturb=False, pool_bias=False):
+def run_terms(binary, terms, seed, tag, threads, perturb=False, pool_bias=False, align=False):
     """Runs the harness over the terms; after a crash it continues behind the crashing term."""
     tdir = os.path.join(vlib.BUILD, "traces")
     os.makedirs(tdir, exist_ok=True)
@@ -55,6 +55,8 @@ def run_terms(binary, terms, seed, tag, threads, perturb=False, pool_bias=False)
             env["VERIF_PERTURB"] = "1"
         if pool_bias:
             env["VERIF_POOL_BIAS"] = "1"
+        if align:
+            env["VERIF_ALIGN"] = "1"
         rc, out = vlib.sh([binary, path, res, str(seed), "--pika:threads=%d" % threads], timeout=900, env=env)
         lines = vlib.read_ndjson(res) if os.path.exists(res) else []
         try:
@@ -167,6 +169,7 @@ def run():
 
     def joins(t):   # when_all whose inputs can complete concurrently with at least two non-value signals
         return (t["op"] == "when_all" and sum(1 for x in leaves(t) if x != "just") >= 2) or \
+            (t["op"] == "when_all_vector" and sum(1 for x in leaves(t) if x != "just") >= 1) or \
             any(joins(t[k]) for k in ("s", "a", "b") if k in t)
     racy = [c for c in cases if (shared(c["term"]) or joins(c["term"])) and size(c["term"]) <= 3]
     rep_n = 60 if chk.thorough() else 25
@@ -176,8 +179,10 @@ def run():
     jstress = [c for c in racy if joins(c["term"]) and not shared(c["term"]) for _ in range(rep_n * 100)]
     for part, threads in ((0, 4), (1, 4)):
         sub = jstress[part::2]
+        # half of the runs: leaves complete from pool tasks; other half: from helper threads that
+        # rendezvous and complete within nanoseconds of each other
         res = run_terms(binary, [c["term"] for c in sub], chk.seed * 100 + 87 + part, "j%d" % part, threads, perturb=True,
-                        pool_bias=True)
+                        pool_bias=(part == 0), align=(part == 1))
         for i, c in enumerate(sub):
             o = res.get(i + 1)
             if o is None:
